@@ -108,6 +108,10 @@ func (s Segment) Check(params index.Params) error {
 	for {
 		msg, nextPosition, err := log.Read(position)
 		if errors.Is(err, io.EOF) {
+			// a partial message header reads as EOF, the log has to end right here
+			if err := checkLogEnd(log, position); err != nil {
+				return err
+			}
 			break
 		} else if err != nil {
 			return err
@@ -130,6 +134,18 @@ func (s Segment) Check(params index.Params) error {
 	}
 
 	return nil
+}
+
+// checkLogEnd checks that the log ends at position, e.g. no partial message follows
+func checkLogEnd(log *message.Reader, position int64) error {
+	switch size, err := log.Size(); {
+	case err != nil:
+		return err
+	case size != position:
+		return fmt.Errorf("%w: %d bytes after the last message", message.ErrCorrupted, size-position)
+	default:
+		return nil
+	}
 }
 
 func (s Segment) Recover(params index.Params) error {
@@ -166,6 +182,12 @@ func (s Segment) Recover(params index.Params) error {
 	for {
 		msg, nextPosition, err := log.Read(position)
 		if errors.Is(err, io.EOF) {
+			// a partial message header reads as EOF, it is a corrupted tail too
+			if err := checkLogEnd(log, position); errors.Is(err, message.ErrCorrupted) {
+				corrupted = true
+			} else if err != nil {
+				return err
+			}
 			break
 		} else if errors.Is(err, message.ErrCorrupted) {
 			corrupted = true
